@@ -70,6 +70,10 @@ CLAIMED = {
          "Histories of 0..4 earlier resolutions (succeeding and failing, with and without min_utxo, 1..6 outputs) are replayed on one compiler instance before a target is resolved; the outcome (bytes, hash, fee / error kind / panic site) must equal that of a fresh identically configured instance. Held on every generated (history, target).",
          "same single-UTxO store for both runs so that hash order cannot differ; latest_tx_body is the only state the instance carries",
          "DESIGN.md section 3 C20"),
+ "C16": ("exploration", "runtime monitor: encoder/decoder inversion oracle over generated values x admissible encodings, refusal oracle over ill-formed shapes, panic hook around from_json / parse_resolve_request, and a reference subset-map for request assembly",
+         "For every argument type a random value is rendered in each documented JSON encoding and from_json must return exactly that value; listed ill-formed shapes must be refused; random JSON against every type and random / corrupted resolve requests (10 envelope corruptions, parameters split between args and env, undeclared extras) must return Ok or Err, and on Ok the argument map must equal the declared subset of args + env coerced by the declared types. Held = no miscoercion, acceptance of an ill-formed value, dropped / extra key or panic on any generated document.",
+         "values are sampled (i128 boundary set, byte strings up to 100 bytes, all Shelley address kinds); a key is never placed in both args and env; transaction-id length is not policed because the statement does not",
+         "DESIGN.md section 3 C16"),
  "C15": ("exploration", "runtime monitor: algebraic-law oracle + BigInt-style reference map over exhaustive small space and random values",
          "Every pair (and, for associativity, triple) of representations of values over 3 asset classes with amounts in -2..2 is enumerated completely and checked against the group laws with the code's own ==, against a reference map, and against the definitions of the predicates; random values extend this to the i128 range and arbitrary class names. Held = no law failed on any enumerated or sampled execution.",
          "trusts the harness' reference arithmetic (checked i128 over a BTreeMap) and ciborium for building values with explicit zero entries; classes in non-normal form (empty policy / empty name given directly to from_class_and_amount) are only fed through the normalising constructors",
